@@ -4567,3 +4567,63 @@ func c09R6b(c *Ctx, r *Report) {
 	r.Check(ok, rule, fn.Name(), "a pattern naming a value is compared at run time when it is not a compile-time constant", c.pos(fn.Decl.Pos()),
 		"a pattern is accepted only if the compiler can evaluate it: `const k := 1; match v { k => … }` compiles, `const k := one(); match v { k => … }` is refused (\"MIR lowering unsupported: match pattern\") — whether the program is accepted depends on what can be evaluated early")
 }
+
+// ---- C16.R12: a wide division by zero does not yield a number ------------------------------------------------------
+
+func init() {
+	lateInits = append(lateInits, func() {
+		props["C16"].Quick = append(props["C16"].Quick, c16R12)
+		props["C16"].Explanation += " (R12) the division primitive of the wide-integer runtime calls the panic helper in its zero-divisor branch instead of handing back 0 as quotient and remainder."
+	})
+}
+
+func c16R12(c *Ctx, r *Report) {
+	const rule = "C16.R12"
+	r.Describe(rule, "runtime/core/bigint.c ferret_div_mod_u_limbs: the if statement whose condition tests the divisor with ferret_is_zero_limbs calls ferret_global_panic in its body")
+	cf := cLoad(c, r, rule, "runtime/core/bigint.c")
+	if cf == nil {
+		return
+	}
+	fn := cf.Funcs["ferret_div_mod_u_limbs"]
+	if !r.Anchor(rule, fn != nil && fn.Body() != nil && len(fn.Params()) >= 2, "bigint.c:ferret_div_mod_u_limbs(numer, denom, …)") {
+		return
+	}
+	denom := fn.Params()[1].Name
+	found, panics := false, false
+	var at *CNode
+	fn.Walk(func(x *CNode) bool {
+		if x.Kind != "IfStmt" || len(x.Inner) < 2 {
+			return true
+		}
+		cond := x.Inner[0]
+		isZeroTest := false
+		cond.Walk(func(y *CNode) bool {
+			if y.Kind == "CallExpr" && y.Callee() == "ferret_is_zero_limbs" {
+				for _, a := range y.Args() {
+					if s := a.strip(); s != nil && s.Ref == denom {
+						isZeroTest = true
+					}
+				}
+			}
+			return true
+		})
+		if !isZeroTest {
+			return true
+		}
+		found = true
+		at = x
+		x.Inner[1].Walk(func(y *CNode) bool {
+			if y.Kind == "CallExpr" && y.Callee() == "ferret_global_panic" {
+				panics = true
+			}
+			return true
+		})
+		return true
+	})
+	where := c.cpos(cf, fn)
+	if at != nil {
+		where = c.cpos(cf, at)
+	}
+	r.Check(found && panics, rule, "bigint.c:ferret_div_mod_u_limbs", "a zero divisor stops the program", where,
+		"the zero-divisor branch returns quotient 0 and remainder 0: `let one: i128 = 1; let z := zero(); io::Println(one / z);` prints 0 and goes on (the same program with i64 stops)")
+}
